@@ -66,6 +66,7 @@ type r1 struct {
 	ctxVars   map[*r1Context]map[*types.Var]bool
 	nContexts int
 	freshFn   map[*core.FuncDecl]bool
+	sites     map[accKey]bool // every field access event seen in any calling context
 	// captured-by-escaping-literal locals, global
 	capturedBy map[*types.Var][]*ast.FuncLit
 	escOf      map[*ast.FuncLit]core.LitEscape
@@ -184,6 +185,21 @@ func runR1(c *Ctx) {
 		}
 	}
 	r.decide()
+	c.cache["r1sites"] = r.sites
+}
+
+func (r *r1) site(ev *core.Event) {
+	if r.sites == nil {
+		r.sites = map[accKey]bool{}
+	}
+	ps := r.c.Prog.Fset.Position(ev.Pos)
+	r.sites[accKey{ps.Filename, ps.Line, ev.Var.Origin()}] = true
+	if ev.Node != nil {
+		pe := r.c.Prog.Fset.Position(ev.Node.End())
+		for l := ps.Line; l <= pe.Line; l++ {
+			r.sites[accKey{ps.Filename, l, ev.Var.Origin()}] = true
+		}
+	}
 }
 
 // contractLocks is the intersection of the locksets at all invocation sites of a func-typed field.
@@ -354,6 +370,9 @@ func (r *r1) walkContext(x *r1Context) {
 				}
 			case core.KAccess:
 				v := ev.Var
+				if v.IsField() {
+					r.site(ev)
+				}
 				if core.LockKindOf(v.Type()) != core.NotLock || core.IsAtomicType(v.Type()) {
 					continue
 				}
@@ -605,6 +624,20 @@ func (r *r1) handleCall(ev *core.Event, x *r1Context, fresh, created map[types.O
 	if calleeDecl != nil {
 		nx.chain = x.chain + " → " + core.FuncName(calleeDecl.Obj) + " @" + c.Prog.Pos(ev.Pos)
 		r.enqueue(nx)
+		// the same call without the constant arguments, so that code a constant switches off today
+		// (restartRoutineLocked(false, …)) is judged as well
+		hasConst := false
+		gen := &r1Context{decl: nx.decl, locks: nx.locks, fresh: nx.fresh, kind: nx.kind, chain: nx.chain + " (any arguments)", binds: map[types.Object]core.Value{}}
+		for o, v := range nx.binds {
+			if v.Kind == core.VBool {
+				hasConst = true
+				continue
+			}
+			gen.binds[o] = v
+		}
+		if hasConst {
+			r.enqueue(gen)
+		}
 	}
 }
 
